@@ -5,13 +5,11 @@
  * map_common.h is asserted on the real object - the base case of the induction the step harnesses (map_step.c,
  * map_itr_step.c, map_grow.c) rely on - which also ties the harness's copy of the private layout to the real one.
  *
- * One deviation, stated in the job's bounds: m_map_new() always makes a 256-slot table (MAP_SIZE_DEFAULT, no API
- * to choose it), and a symbolic 256-slot table did not finish (symex > 15 min: every slot may hold an entry at
- * every table walk).  The harness therefore sets table_size to TS (4) right after m_map_new() - the table, zeroed by
- * the allocator hook, is simply used as a TS-slot one, i.e. the map m_map_new would make with MAP_SIZE_DEFAULT = TS.
- * map.c is size-generic (power of two); the shipped size is exercised natively by /verif/repro/C05_*.c.
- * Paths on which a put grows the table are outside this harness (cut; possible from operation TS/2 + 1 on, an
- * earlier growth would be reported); growth is map_grow.c. */
+ * Table size: map.c is compiled with the repository's add-only verification hook -DFEDEDP_LIBMODULE_VERIF_MAP_SIZE=TS
+ * (MAP_SIZE_DEFAULT = TS instead of 256; a symbolic 256-slot table did not finish: symex > 15 min, every slot may
+ * hold an entry at every table walk).  map.c is size-generic (power of two); the shipped size is exercised natively
+ * by /verif/repro/C05_*.c.  Paths on which a put grows the table are outside this harness (cut; possible from
+ * operation TS/2 + 1 on, an earlier growth would be reported); growth is map_grow.c. */
 #ifndef TS
 #define TS 4
 #endif
@@ -22,7 +20,6 @@
 #define VBASE 0
 #define NFRESH (L + 1)
 #define MAXA (L + 2)
-#define VF_TBL_FIRST_REQ 256
 #include "map_common.h"
 
 static char putkey[KEYLEN];
@@ -41,8 +38,7 @@ int vf_main(void) {
     if (keymode == 2 && nondet_bool()) uf |= M_MAP_KEY_AUTOFREE;
     m_map_t *m = m_map_new((m_map_flags)uf, with_dtor ? vf_dtor : NULL);
     VF_ASSUME(m != NULL);
-    VF_CHECK(m == &vf_map_arena && m->table == vf_tbl_a0 && m->table_size == 256 && vf_tbl_req0 == 256, "m_map_new: one map object, one zeroed table of the default size");
-    m->table_size = TS;                                    /* see header: the one deviation */
+    VF_CHECK(m == &vf_map_arena && m->table == vf_tbl_a0 && m->table_size == TS && vf_tbl_req0 == TS, "m_map_new: one map object, one zeroed table of the default size");
     vf_check_inv(m);
     VF_CHECK(m_map_len(m) == 0, "a new map is empty");
 
